@@ -481,8 +481,9 @@ func runAcceptDaemon(a *AcceptIn) acceptObs {
 
 	// one request and its answer; once the loop has returned nobody will accept a waiting
 	// connection any more, so the wait is cut short
+	patience := 10 * time.Second // 1 s once a connection of this case has gone unanswered
 	exchange := func(c net.Conn, first bool) bool {
-		c.SetDeadline(time.Now().Add(10 * time.Second))
+		c.SetDeadline(time.Now().Add(patience))
 		stop := make(chan struct{})
 		defer close(stop)
 		go func() {
@@ -562,11 +563,14 @@ func runAcceptDaemon(a *AcceptIn) acceptObs {
 			conns[i] = c
 		} else {
 			c.Close()
+			patience = time.Second
 		}
 	}
 	for _, i := range ob.served {
 		if exchange(conns[i], false) {
 			ob.again = append(ob.again, i)
+		} else {
+			patience = time.Second
 		}
 	}
 	ob.alive = !l.hasReturned()
